@@ -393,6 +393,24 @@ pub fn run(tier: Tier, replay: Option<&str>) {
                 }
             }
         }
+        // streams of requests whose answers are repeated (2-byte RXParamSetupAns / DlChannelAns, 1-byte
+        // RXTimingSetupAns) and fill 13, 14, 15 (exactly full) or 16 bytes: the repeat must carry the same answers
+        for (two, one) in [(5usize, 5usize), (5, 4), (5, 3), (5, 6), (7, 1), (7, 0), (6, 3), (0, 15), (0, 14), (0, 16), (6, 1), (7, 2)] {
+            for two_kind in [0u8, 1] {
+                let mut b = vec![];
+                for i in 0..two {
+                    if two_kind == 0 {
+                        b.extend([0x05, 0x00, f[0], f[1], f[2]]);
+                    } else {
+                        b.extend([0x0A, (i % 3) as u8, f[0], f[1], f[2]]);
+                    }
+                }
+                for i in 0..one {
+                    b.extend([0x08, 1 + (i % 5) as u8]);
+                }
+                budget.push(Cmd { name: format!("repeated-answers-{two}x2+{one}x1"), bytes: b });
+            }
+        }
         // a refused LinkADRReq block, another request, then an accepted block in the same downlink: what the
         // refused block did to the mask must not leak into what the accepted one commits
         for (cntl_a, mask_a) in [(0u8, 0x0000u16), (0, 0x00F0), (1, 0x0000), (7, 0x0000)] {
@@ -571,7 +589,7 @@ pub fn run(tier: Tier, replay: Option<&str>) {
         "samples": samples,
         "evaluations": ctx.evals(),
         "distinct_nontrivial": nontrivial.load(Ordering::Relaxed),
-        "rule": "each case is a history on a fresh real device: base state (fresh / CFList join / sparse mask / extra channels / high data rate), 0-2 prior command downlinks, the judged downlink (FOpts or port 0), then uplinks and an acknowledging downlink. Judged downlinks: the full value domain of LinkADRReq (DR x TXPower x ChMaskCntl x mask patterns x NbTrans x RFU bit), LinkADRReq blocks, RXParamSetupReq (all 256 DLSettings x frequency set), RXTimingSetupReq (all 256), NewChannelReq (index x frequency set x DrRange bytes), DlChannelReq, DevStatusReq (requests with repeated answers also with an FPort 0 uplink before the repeat); k x DevStatusReq followed by two further requests (answer budget at every position); Class C deliveries (between TX and RX1, and while idle in rxc_listen with the answers of the preceding Class A downlink still unsent); port-0 requests in sessions whose downlink counter is beyond 16 bits. non-trivial = judged stream contains at least one request",
+        "rule": "each case is a history on a fresh real device: base state (fresh / CFList join / sparse mask / extra channels / high data rate), 0-2 prior command downlinks, the judged downlink (FOpts or port 0), then uplinks and an acknowledging downlink. Judged downlinks: the full value domain of LinkADRReq (DR x TXPower x ChMaskCntl x mask patterns x NbTrans x RFU bit), LinkADRReq blocks, RXParamSetupReq (all 256 DLSettings x frequency set), RXTimingSetupReq (all 256), NewChannelReq (index x frequency set x DrRange bytes), DlChannelReq, DevStatusReq (requests with repeated answers also with an FPort 0 uplink before the repeat); k x DevStatusReq followed by two further requests (answer budget at every position); streams of requests with repeated answers that fill 13 / 14 / 15 (exactly) / 16 bytes; Class C deliveries (between TX and RX1, and while idle in rxc_listen with the answers of the preceding Class A downlink still unsent); port-0 requests in sessions whose downlink counter is beyond 16 bits. non-trivial = judged stream contains at least one request",
         "regions": regions,
         "exhaustive": true,
     });
